@@ -724,6 +724,13 @@ def fs_edges(chk, sm, fail, quick):
         ('config file is a directory', dict(T, **{'cfgdir': ('dir',)}), ['-c', '{d}/cfgdir'] + O, 'diag'),
         ('config with wrong value types', dict(T, **{'cfg.toml': '[swift]\nprefix = 3\n'}), ['-c', '{d}/cfg.toml'] + O, 'diag'),
         ('config with unknown keys', dict(T, **{'cfg.toml': '[cobol]\nx = 1\n[swift]\nnope = true\n'}), ['-c', '{d}/cfg.toml'] + O, None),
+        ('config type_mappings: identity mapping', dict(T, **{'cfg.toml': '[swift.type_mappings]\n"Url" = "Url"\n[kotlin.type_mappings]\n"S" = "S"\n'}),
+         ['-c', '{d}/cfg.toml', '--lang', 'swift', '-o', '{d}/out.swift', '{d}/tree'], 'ok'),
+        ('config type_mappings: two-cycle', dict(T, **{'cfg.toml': '[typescript.type_mappings]\n"A" = "B"\n"B" = "A"\n'}), ['-c', '{d}/cfg.toml'] + O, 'ok'),
+        ('config type_mappings: cycle in another language section, found by ancestor search',
+         {'tree/c/src/a.rs': GOOD, 'typeshare.toml': '[kotlin.type_mappings]\n"X" = "Y"\n"Y" = "Z"\n"Z" = "X"\n[go]\npackage = "p"\n'},
+         ['--lang', 'typescript', '-d', '{d}/out', '{d}/tree'], 'ok'),
+        ('config type_mappings: chain', dict(T, **{'cfg.toml': '[typescript.type_mappings]\n"S" = "T1"\n"T1" = "T2"\n"T2" = "string"\n'}), ['-c', '{d}/cfg.toml'] + O, 'ok'),
         ('config type_mappings to odd strings', dict(T, **{'cfg.toml': '[typescript.type_mappings]\n"u8" = ""\n"S" = "\\n"\n'}), ['-c', '{d}/cfg.toml'] + O, 'ok'),
         ('--generate-config into a directory', T, ['-g', '-c', '{d}/tree', '--lang', 'typescript', '{d}/tree'], 'diag'),
         ('--generate-config', T, ['-g', '-c', '{d}/cfgout.toml', '--lang', 'typescript', '{d}/tree'], 'ok'),
